@@ -827,6 +827,7 @@ class DnTr:
         # a name may be changed in place only if every binding of it in the function is a freshly built list
         self.fresh_only = {}
         params = set(a.arg for a in fn.args.args)
+        self.bindings = {}
         for x in ast.walk(fn):
             if isinstance(x, ast.Assign):
                 for t in x.targets:
@@ -834,10 +835,12 @@ class DnTr:
                         if isinstance(nm, ast.Name):
                             ok = isinstance(t, ast.Name) and self.is_fresh_list(x.value)
                             self.fresh_only[nm.id] = self.fresh_only.get(nm.id, True) and ok
+                            self.bindings.setdefault(nm.id, []).append((x, ok))
             elif isinstance(x, (ast.For,)):
                 for nm in ast.walk(x.target):
                     if isinstance(nm, ast.Name):
                         self.fresh_only[nm.id] = False
+                        self.bindings[nm.id] = [(x, False)]
         for p_ in params:
             # a parameter that the function first of all replaces by a copy (`p = list(p)`) is a fresh list from then on
             first = next((st for st in fn.body if any(isinstance(x, ast.Name) and x.id == p_ for x in ast.walk(st))), None)
@@ -845,6 +848,7 @@ class DnTr:
                       and first.targets[0].id == p_ and src(first.value) == "list(%s)" % p_)
             if not (copied and self.fresh_only.get(p_, False)):
                 self.fresh_only[p_] = False
+                self.bindings.pop(p_, None)
 
     @staticmethod
     def is_fresh_list(e):
@@ -854,8 +858,45 @@ class DnTr:
             return True
         return False
 
-    def mutable(self, name):
-        return self.fresh_only.get(name, False)
+    def _index(self):
+        """For every statement of the function: the chain of (If node, branch) it sits in, and whether a loop encloses that If."""
+        if getattr(self, "_anc", None) is not None:
+            return
+        self._anc = {}
+
+        def walk(stmts, chain, in_loop):
+            for st in stmts:
+                self._anc[id(st)] = list(chain)
+                if isinstance(st, ast.If):
+                    walk(st.body, chain + [(id(st), 0, in_loop)], in_loop)
+                    walk(st.orelse, chain + [(id(st), 1, in_loop)], in_loop)
+                elif isinstance(st, (ast.For, ast.While)):
+                    walk(st.body, chain, True)
+                    walk(st.orelse, chain, True)
+        walk(self.fn.body, [], False)
+
+    def mutable(self, name, at=None):
+        """May the list bound to `name` be changed in place at statement `at`?  Yes if every binding of the name in the function
+        is a freshly built list - or if every binding that is not sits in the OTHER branch of an `if` (outside every loop) than
+        `at`: it cannot reach that statement."""
+        if self.fresh_only.get(name, False):
+            return True
+        if at is None or name not in getattr(self, "bindings", {}):
+            return False
+        self._index()
+        here = self._anc.get(id(at))
+        if here is None:
+            return False
+        for b, fresh in self.bindings[name]:
+            if fresh:
+                continue
+            there = self._anc.get(id(b))
+            if there is None:
+                return False
+            excl = any(i1 == i2 and br1 != br2 and not loop1 for (i1, br1, loop1) in here for (i2, br2, _l) in there)
+            if not excl:
+                return False
+        return True
 
     def is_float_lit(self, e, what):
         return (isinstance(e, ast.Call) and isinstance(e.func, ast.Name) and e.func.id == "float" and len(e.args) == 1
@@ -994,7 +1035,7 @@ class DnTr:
             c = st.value
             if isinstance(c.func, ast.Attribute) and isinstance(c.func.value, ast.Name):
                 x, m, a = c.func.value.id, c.func.attr, c.args
-                if not self.mutable(x):
+                if not self.mutable(x, st):
                     return "(.unsupported %s)" % q(t + "  # in-place change of a list that may be shared")
                 if m == "append" and len(a) == 1:
                     return "(.appendLoc %s %s)" % (q(x), self.expr(a[0]))
